@@ -427,7 +427,15 @@ func init() {
 		"hash/maphash.MakeSeed": noopIntrinsic,
 		"hash/maphash.Bytes":    maphashBytes,
 		"hash/maphash.String":   maphashBytes,
-		"runtime.KeepAlive": noopIntrinsic,
+		"github.com/IrineSistiana/mosproxy/internal/mlog.L":   freshObjIntrinsic,
+		"github.com/IrineSistiana/mosproxy/internal/mlog.Nop": freshObjIntrinsic,
+		"crypto/x509.NewCertPool":                             freshObjIntrinsic,
+		"runtime.KeepAlive":          noopIntrinsic,
+		"runtime.GC":                 noopIntrinsic,
+		"runtime/debug.FreeOSMemory": noopIntrinsic,
+		rtPkg + "Ghost": func(e *Engine, s *State, f *Frame, fn *ssa.Function, args []Value, retIdx int, advance bool) (Value, bool) {
+			return e.c.BV(uint64(s.ghost[e.tagOf(args[0])]), 64), true
+		},
 		"runtime.Gosched":   noopIntrinsic,
 	}
 	addSyncIntrinsics()
@@ -856,4 +864,11 @@ func errorsIs(e *Engine, s *State, f *Frame, fn *ssa.Function, args []Value, ret
 		cur = inner
 	}
 	return e.c.False, true
+}
+
+// freshObjIntrinsic: the function returns a pointer to a fresh zero value of its result's element type.
+func freshObjIntrinsic(e *Engine, s *State, f *Frame, fn *ssa.Function, args []Value, retIdx int, advance bool) (Value, bool) {
+	pt := fn.Signature.Results().At(0).Type().Underlying().(*types.Pointer)
+	o := e.newObj(s, e.zero(pt.Elem()), pt.Elem(), "model "+fn.String())
+	return &Pointer{Obj: o.ID}, true
 }
